@@ -53,17 +53,29 @@ func (o *Obligation) Script() string {
 	for _, l := range ex.ctx.lines {
 		b.WriteString(l + "\n")
 	}
+	var body strings.Builder
+	for i := 0; i < o.NAssume && i < len(ex.assumes); i++ {
+		body.WriteString("(assert " + ex.assumes[i].String() + ")\n")
+	}
+	body.WriteString("(assert " + o.PC.String() + ")\n")
+	if o.Extra != nil {
+		body.WriteString("(assert " + o.Extra.String() + ")\n")
+	}
+	body.WriteString("(assert (not " + o.Goal.String() + "))\n")
+	bs := body.String()
+	// The quantified memory-model axioms are only needed when the query itself
+	// quantifies (ground instances are asserted where the terms are created);
+	// leaving them out keeps ground queries decidable, so refutations come back
+	// as sat with a model rather than unknown.
+	if strings.Contains(bs, "(forall ") || strings.Contains(bs, "(exists ") {
+		for _, a := range ex.axioms {
+			b.WriteString("(assert " + a.String() + ")\n")
+		}
+	}
 	for _, a := range ex.ctx.StrAxioms() {
 		b.WriteString("(assert " + a.String() + ")\n")
 	}
-	for i := 0; i < o.NAssume && i < len(ex.assumes); i++ {
-		b.WriteString("(assert " + ex.assumes[i].String() + ")\n")
-	}
-	b.WriteString("(assert " + o.PC.String() + ")\n")
-	if o.Extra != nil {
-		b.WriteString("(assert " + o.Extra.String() + ")\n")
-	}
-	b.WriteString("(assert (not " + o.Goal.String() + "))\n")
+	b.WriteString(bs)
 	b.WriteString("(check-sat)\n")
 	if len(o.Values) > 0 {
 		b.WriteString("(get-value (")
@@ -166,10 +178,15 @@ func (d *Discharger) Discharge(o *Obligation) *SolveResult {
 	for i := range solvers {
 		order[i] = solvers[(i+d.Seed)%len(solvers)]
 	}
+	timeout := d.TimeoutS
+	if o.Kind == "cover" || o.Canary || o.Case != "" {
+		// satisfiability checks and canaries: a quick answer or none
+		timeout = 3
+	}
 	for _, s := range order {
 		s := s
 		go func() {
-			st, out, secs := d.runSolver(ctx, s, file, d.TimeoutS)
+			st, out, secs := d.runSolver(ctx, s, file, timeout)
 			ch <- ans{s.Name, st, out, secs}
 		}()
 	}
